@@ -87,6 +87,16 @@ func lossy(v []byte) bool {
 		(len(s) >= 2 && s[0] == '"' && s[len(s)-1] == '"')
 }
 
+// plainToken: text that stands for itself in a Set-Cookie line
+func plainToken(s string) bool {
+	for i := 0; i < len(s); i++ {
+		if ch := s[i]; !(ch >= 'a' && ch <= 'z' || ch >= 'A' && ch <= 'Z' || ch >= '0' && ch <= '9' || ch == '-' || ch == '_' || ch == '.') {
+			return false
+		}
+	}
+	return s != ""
+}
+
 func excepted(name string, ex []string) bool {
 	for _, e := range ex {
 		if e == name {
@@ -109,6 +119,12 @@ func check(c Case) vk.Verdict {
 	app.Use(encryptcookie.New(encryptcookie.Config{Key: key, Except: c.Except}))
 	app.Get("/set", func(ctx fiber.Ctx) error {
 		for _, ck := range c.Cookies {
+			if ck.Attr == "badattr" && plainToken(ck.Name) && plainToken(string(ck.Value)) {
+				// through the header API (a relayed upstream line), with an attribute the cookie parser refuses: the
+				// client still takes name and value from it
+				ctx.Response().Header.Add("Set-Cookie", ck.Name+"="+string(ck.Value)+"; max-age=soon")
+				continue
+			}
 			ctx.Cookie(ck.fiber())
 		}
 		if c.Dup {
@@ -484,7 +500,7 @@ func genCase(t *rapid.T) Case {
 	c := Case{Key: rapid.SliceOfN(rapid.Byte(), kl, kl).Draw(t, "key"), OtherKey: rapid.SliceOfN(rapid.Byte(), kl, kl).Draw(t, "okey")}
 	ns := rapid.SliceOfNDistinct(rapid.SampledFrom(names), 1, 4, rapid.ID[string]).Draw(t, "names")
 	for _, n := range ns {
-		c.Cookies = append(c.Cookies, Cookie{Name: n, Value: genValue(t), Attr: rapid.SampledFrom([]string{"", "", "", "past", "future", "maxage", "session", "secure"}).Draw(t, "attr")})
+		c.Cookies = append(c.Cookies, Cookie{Name: n, Value: genValue(t), Attr: rapid.SampledFrom([]string{"", "", "", "past", "future", "maxage", "session", "secure", "badattr", "badattr"}).Draw(t, "attr")})
 	}
 	c.Except = rapid.SliceOfNDistinct(rapid.SampledFrom(names), 0, 2, rapid.ID[string]).Draw(t, "except")
 	c.SetErr = rapid.SampledFrom([]int{0, 0, 0, 403, 500}).Draw(t, "seterr")
